@@ -19,7 +19,8 @@ SET_CONFIGURATION at a random place - then a data phase of 50..130 randomly sche
   with 7 data bytes (data packet corrupted / its ACK lost / status ZLP not ACKed and fetched again); every other CDC
   request of the catalogue, random class requests, vendor requests (with the SET_LINE_CODING request code and one-bit
   neighbours of it), with no data stage, IN data stage and OUT data stage; GET_DESCRIPTOR / GET_CONFIGURATION again;
-  CLEAR_FEATURE(ENDPOINT_HALT) on the data endpoints; and the packets of every control transfer interleaved with bulk
+  CLEAR_FEATURE(ENDPOINT_HALT) on the data endpoints; SET_LINE_CODING while the receive FIFO is full, with bulk OUT packets
+  (to be NAKed) between its SETUP and its data packet; and the packets of every control transfer interleaved with bulk
   transactions.  The data endpoints share one endpoint number, so "IN data not ACKed, then OUT to the same number, then
   the IN retry" is generated on purpose.  Stream side: producer gaps (full rate / sparse / bursty), `last` at transfer
   ends (aimed at full packets so that ZLPs occur), consumer ready profiles and directed long blocks (so that the
@@ -51,17 +52,27 @@ Oracle (independent; nothing is taken from luna):
   * the notification endpoint answers NAK; nothing is transmitted for other addresses.
   * while `connect` is high the device presents itself to the host (UTMI term_select high = full-speed pull-up).
 
-Mechanism names describe the symptom.  Two history patterns have their own names because they are defects of the
-unchanged tree (findings/C57.md): `out_toggle_not_reset_by_<set_configuration|bus_reset>` and
-`in_toggle_not_reset_by_<...>` - the failing packet is the first data packet on that endpoint after a
-re-configuration that found the endpoint's toggle at DATA1.
-The session stops at the first contradiction (device state unknown afterwards).
+Mechanism names describe the symptom.  Three history patterns have their own names because they are defects of the
+unchanged tree (findings/C57.md, known_findings.d/C57.json):
+  out_toggle_not_reset_by_<set_configuration|bus_reset>, in_toggle_not_reset_by_<set_configuration|bus_reset>
+      the failing packet is the first data packet on that endpoint after a re-configuration that found the endpoint's
+      toggle at DATA1 (OUT: exactly the bytes of the first packet ACKed after it are missing from rx; IN: the first
+      packet after it carries the toggle the host does not expect although nothing was left un-ACKed);
+  refused_request_not_stalled_class_0x20_device_to_host
+      class request with the SET_LINE_CODING code but device-to-host direction (it is an "other class request").
+Both tails (re-configuration, the 0xA1/0x20 probe) run after the final drain of the session, i.e. after everything else
+has been judged, so that they cannot mask anything.  The session stops at the first contradiction (device state unknown).
 
 Deviations from DESIGN section 7: descriptors are judged by meaning instead of against `create_descriptors()`
-(that is luna code); packet sizes 16 and 32 added; loopback composition and re-configuration added.
-Not judged: rx/tx `first`/`last` flags (C13), exact NAK conditions and latencies (C11/C13), content of GET_STATUS,
-device-qualifier answer, reserved-type requests, class requests with recipient other than interface, requests with
-bRequest 0x20 of type class in device-to-host direction are judged as "other class request".
+(that is luna code); packet sizes 16 and 32, the loopback composition, re-configuration, CLEAR_FEATURE(ENDPOINT_HALT) and
+the `connect` -> pull-up check were added.  DESIGN section-10 mutation "STALL handler claims class requests too" is an
+equivalent mutant (StallOnlyRequestHandler never drives `claim`, the multiplexer's fallback handler does the stalling).
+
+Not judged: rx/tx `first`/`last` flags (C13), exact NAK conditions and latencies (C11/C13), content of GET_STATUS, the
+device-qualifier answer, reserved-type requests, class requests with a recipient other than interface, SET_LINE_CODING
+with wLength other than 7, behaviour with data in flight across a bus reset / SET_CONFIGURATION (the streams are drained
+first, so a device that flushes its buffers there and one that keeps them both pass), timing other than the 60 MHz clock
+with luna's 12 MHz full-speed tables (USBSerialDevice builds its USBDevice internally).
 """
 from rv.sim import Bench
 from rv.usb2host import UTMIHost, init_device_signals
@@ -84,7 +95,7 @@ REQUIRED_BINS = ["mps_8", "mps_16", "mps_32", "mps_64", "mode_separate", "mode_l
                  "out_zlp", "out_full_packet", "out_short_packet", "out_nak", "out_corrupt", "out_truncated", "out_lost_ack_repeat",
                  "in_zlp", "in_full_packet", "in_short_packet", "in_nak", "in_garbage_retry", "in_lost_ack_duplicate",
                  "unacked_in_then_out_same_number", "unacked_in_then_control", "unacked_in_then_foreign_ack",
-                 "notify_poll", "sof", "foreign_address", "old_address_probe", "sink_blocked", "clear_halt",
+                 "slc_while_out_endpoint_naks", "notify_poll", "sof", "foreign_address", "old_address_probe", "sink_blocked", "clear_halt",
                  "reconf_set_configuration", "reconf_bus_reset", "descriptor_reread_in_data_phase", "class_0x20_device_to_host"]
 REQUIRED_EVENTS = ["sessions", "descriptors_validated", "strings_validated", "control_transfers", "stalls_judged",
                    "set_line_codings_judged", "out_packets_acked", "rx_bytes_checked", "tx_bytes_accepted", "in_packets_accepted",
@@ -823,7 +834,26 @@ class Session:
             return
         yield from self.status_out()
 
-    def set_line_coding(self):
+    def full_fifo_then_set_line_coding(self):
+        """directed: consumer blocked until the receive FIFO NAKs, then SET_LINE_CODING with bulk OUT packets (which the OUT
+        endpoint has to NAK) between its SETUP and its data packet - the control data stage must not answer for them"""
+        if not self.out_remaining() or self.out_dev_acked or self.failed:
+            return
+        self.block_cycles = 3000
+        self.step("BLOCK_UNTIL_NAK")
+        n0 = self.res.bins.get("out_nak", 0)
+        for _ in range(8):
+            if self.failed or not self.out_remaining() or self.res.bins.get("out_nak", 0) > n0:
+                break
+            yield from self.out_step("good")
+        if self.failed or not self.out_remaining() or self.res.bins.get("out_nak", 0) == n0:
+            self.block_cycles = 0
+            return
+        self.res.bin("slc_while_out_endpoint_naks")
+        yield from self.set_line_coding(force_out=self.rng.randint(1, 2))
+        self.block_cycles = self.rng.randint(0, 60)
+
+    def set_line_coding(self, force_out=0):
         host, rng = self.host, self.rng
         coding = bytes(rng.randrange(256) for _ in range(4)) + bytes([rng.randrange(3), rng.randrange(5), rng.choice([5, 6, 7, 8, 16])])
         iface = self.info["comm_interface"] if self.info else 0
@@ -831,6 +861,8 @@ class Session:
         if not (yield from self.setup_stage(U.setup_bytes(0x21, A.SET_LINE_CODING, 0, iface, 7))):
             return
         inter = yield from self.between("slc_interleaved")
+        for _ in range(force_out):
+            yield from self.out_step("good")
         fault = rng.choice(["none"] * 6 + ["corrupt", "corrupt", "acklost", "acklost"])
         naks = 0
         while not self.failed:
@@ -1140,8 +1172,10 @@ class Session:
                 yield from self.atomic()
             elif r < 0.93:
                 yield from self.control_action()
-            elif r < 0.975:
+            elif r < 0.96:
                 yield from self.block_sink()
+            elif r < 0.98:
+                yield from self.full_fifo_then_set_line_coding()
             else:
                 yield from self.clear_halt()
 
